@@ -568,7 +568,7 @@ func (s *bState) triggerCompletion(b *Bar) {
 	}
 }
 
-func (s bState) completed() bool {
+func (s *bState) completed() bool {
 	return s.triggerComplete && !s.aborted && s.current == s.total
 }
 
